@@ -168,6 +168,7 @@ def measure_cleanup():
         keep.append(held)
         label, _ = conn._box(held)                       # an entry in _local_objects
         conn._proxy_cache[("x", 1, 2)] = held            # an entry in the proxy cache
+        conn._remote_root = held                         # `conn.root` (argument of before_closed) must not ask the silent peer
         if 0 in _table_sizes(conn):
             raise Inexpressible("cannot fill the three tables for the _cleanup probe: sizes %r" % (_table_sizes(conn),))
         return conn
@@ -266,6 +267,61 @@ def measure_box_refuses_on_closed_channel():
     if label == consts.LABEL_REMOTE_REF and _table_sizes(conn)[1] == 1:
         return False
     raise Inexpressible("_box on a closed channel returned label %r with %d local objects" % (label, _table_sizes(conn)[1]))
+
+
+def measure_cleanup_fails_pending():
+    """What becomes of a request still waiting for its answer when `_cleanup` runs?  True: its callback is called once with
+    (True, EOFError) - the AsyncResult becomes ready, an error, its add_callback functions run - and a callback that raises
+    does not stop the clean-up nor the other callbacks; False: the callbacks are dropped unfired (`ready` stays False for
+    ever)."""
+    from rpyc.core.channel import Channel
+    from rpyc.core.service import VoidService
+    from rpyc.core.stream import Stream
+
+    class Null(Stream):
+        MAX_IO_CHUNK = 64000
+        is_closed = False
+
+        @property
+        def closed(self):
+            return self.is_closed
+
+        def close(self):
+            self.is_closed = True
+
+        def fileno(self):
+            raise EOFError()
+
+        def poll(self, timeout):
+            return False
+
+        def read(self, count):
+            raise EOFError()
+
+        def write(self, data):
+            pass
+    got = []
+
+    def bad(is_exc, obj):
+        got.append(("bad", is_exc, type(obj).__name__))
+        raise RuntimeError("a callback that fails")
+    try:
+        conn = VoidService()._connect(Channel(Null(), False), {})
+        conn._request_callbacks[5] = bad
+        conn._request_callbacks[6] = lambda is_exc, obj: got.append(("good", is_exc, type(obj).__name__))
+    except Exception as ex:  # noqa
+        raise Inexpressible("cannot set up the pending-at-the-end probe: %r" % (ex,))
+    try:
+        conn._cleanup()
+    except Exception as ex:  # noqa
+        raise Inexpressible("_cleanup() with pending requests raised %r" % (ex,))
+    if _table_sizes(conn) != (0, 0, 0):
+        raise Inexpressible("_cleanup() with pending requests left table sizes %r" % (_table_sizes(conn),))
+    if sorted(got) == [("bad", True, "EOFError"), ("good", True, "EOFError")]:
+        return True
+    if not got:
+        return False
+    raise Inexpressible("_cleanup() with two pending requests called their callbacks like this: %r" % (got,))
 
 
 def measure_dispatch_closes_on_eof():
@@ -372,6 +428,9 @@ def gen_proto():
     L += ["", "/-- measured on the live `Connection._box`: boxing by reference on a closed channel raises EOFError and registers",
           "nothing (true) / registers the object (false) -/",
           "def boxRefusesOnClosedChannel : Bool := %s" % ("true" if measure_box_refuses_on_closed_channel() else "false")]
+    L += ["", "/-- measured on the live `Connection._cleanup`: every request still waiting for its answer is completed with",
+          "EOFError (its result ready, an error, its callbacks run; a failing callback stops nothing) (true) / dropped unfired (false) -/",
+          "def cleanupFailsPending : Bool := %s" % ("true" if measure_cleanup_fails_pending() else "false")]
     L += ["", "end Rpyc.Gen.Proto", ""]
     return "\n".join(L)
 
